@@ -40,6 +40,10 @@ def _ll_gauss(c, s=0.08, center=0.5):
     return -0.5 * t
 
 
+def _ll_gwide(c):
+    return _ll_gauss(c, s=0.2)
+
+
 def _ll_two(c, s=0.05):
     a = 0.0
     b = 0.0
@@ -120,7 +124,7 @@ def _ll_const(c):
     return 0.0 * c[0]
 
 
-LIKES = dict(gauss=_ll_gauss, two=_ll_two, ring=_ll_ring, half=_ll_half, plateau=_ll_plateau,
+LIKES = dict(gauss=_ll_gauss, gwide=_ll_gwide, two=_ll_two, ring=_ll_ring, half=_ll_half, plateau=_ll_plateau,
              wrap=_ll_wrap, const=_ll_const, funnel=_ll_funnel, nuis=_ll_nuis)
 
 BLOB_KINDS = ('none', 'float', 'int', 'two', 'array', 'struct', 'f32')
@@ -314,7 +318,7 @@ DEFAULTS = dict(
     nn=dict(hidden_layer_sizes=(6,), max_iter=60), periodic=None, blob='none', vectorized=False,
     prior='identity', pool_l=0, pool_s=0, discard=False, seed=1, f_live=0.05, n_shell=1,
     n_eff=150, file=True, enlarge_per_dim=1.1, n_points_min=6, n_like_new_bound=None,
-    split_threshold=100, verbose=False, want=None)
+    split_threshold=100, verbose=False, want=None, ext='.h5', pathlib=False)
 
 
 class Scenario(dict):
@@ -361,6 +365,9 @@ class Scenario(dict):
         """a real nautilus.Sampler for this scenario"""
         from nautilus import Sampler
         s = self
+        if filepath is not None and s['pathlib']:
+            import pathlib
+            filepath = pathlib.Path(filepath)
         kw = self.sampler_kwargs(filepath, resume)
         keys = self.keys_()
         if s['prior'] == 'identity':
